@@ -11,6 +11,12 @@ Strengthening round: fresh equal label / time objects on every call, every argum
 containers overwritten after the call) and out (returned containers overwritten or kept and re-compared, returned
 Hypergraphs edited), full option products, per-call probe queries (stale caches), records nested in one another.  A
 difference in the two id listings alone no longer ends the search for a property-level failing input.
+Round d: the WHOLE object - incidence metadata (set / read / edited in place; entries of removed records stay, as in the
+code) is part of every digest; copy() and every other route from one TemporalHypergraph to another (copy.deepcopy, pickle,
+expose_data_structures -> populate_from_dict, binary and JSON files) with "every public getter of the class (enumerated
+with inspect) answers on the result as on the source"; histories that start from HOADmodel output or continue on a loaded
+object; labels and times with colliding hashes; metadata that is not a mapping; refused calls followed by their corrected
+form; times beyond 2^53 with aggregation widths at M, M+-1, (M+1)/2, (M+1)/3.
 """
 import copy as _copy
 import json
@@ -21,16 +27,26 @@ from fractions import Fraction
 
 import hgxv
 
-RULE = ("random histories (6-40 public mutating calls; 1-2 object slots for copy) over 3-6 nodes; labels of 7 kinds (small ints, "
-        "ints > 256, ints > 2^63, floats, literal and run-time strings incl. 0 and ''), every call gets freshly constructed equal "
-        "label / time / window objects; times = steps 0..12 times a per-history scale (1, 257, 1000, 2^40, 2^64+3) drawn mostly "
+RULE = ("random histories (6-40 public mutating calls; 1-2 object slots for copy) over 3-6 nodes; labels of 8 kinds (small ints, "
+        "ints > 256, ints > 2^63, floats, literal and run-time strings incl. 0 and '', different ints with EQUAL hashes: -1/-2/-2^61, "
+        "0/2^61-1/2^62-2, 1/2^61), every call gets freshly constructed equal "
+        "label / time / window objects; times = steps 0..12 times a per-history scale (1, 257, 1000, 2^40, 2^53+1, 10^18, 2^61-1 "
+        "(all times hash to 0), 2^64+3) drawn mostly "
         "from a pool of 2-4 so that (time,set) records are re-inserted, removed and re-inserted, plus records nested in present "
         "ones (same time, one node more or fewer) and remove_node(keep_edges=True) of the node that makes them coincide; "
         "hyperedge / node-list / record-list / weight / time-list arguments in every container type the unchanged code takes "
         "(tuple, list, set, frozenset, generator, numpy array, dict keys, range - chosen by a hash of the call, counted in the "
         "evidence), optional arguments left out in half of the calls; weights k/4 (1 vs 1.0, 0, > 2^32), both weightedness "
         "settings, metadata tokens; 10-15% malformed calls (time 1.5 / '3' / 3.0 / numpy ints / negative, missing record or node, "
-        "weight 2 on unweighted, both order and size, bad batches, batch containers that add_edges refuses). After every call: "
+        "weight 2 on unweighted, both order and size, bad batches, batch containers that add_edges refuses; a refused insertion is mostly followed by its corrected form). "
+        "7% incidence calls (set_incidence_metadata on present / absent records, member / other / non-node labels, in-place edit "
+        "of the stored dictionary); metadata objects that are not mappings (tag, number, list, '' / []) in 7% of the metadata "
+        "arguments; 4.5% routes from one object to another (copy() half of them, copy.deepcopy, pickle, expose_data_structures -> "
+        "populate_from_dict, save/load binary, save/load JSON; into the other slot or in place), 12% of the histories pass "
+        "through a loader within their first 6 calls, 6% start from HOADmodel output (seeded random, expected content from the "
+        "documented recipe); after a route: digest of the result against the route's expected content, source unchanged, and "
+        "EVERY public getter of the class (inspect; arguments by parameter name over all nodes / records / incidences / options) "
+        "answers on the result as on the source. After every call: "
         "every container passed in is overwritten by the caller, full digest, 24 fixed probe queries + 3 random queries, every "
         "returned list/set/dict is overwritten or kept and compared later, returned Hypergraphs are edited; twice per history: every "
         "query with every filter (order -1..4, size 0..5, up_to), all 256 windows on the time grid, time_window x order/size x "
@@ -44,7 +60,15 @@ ASSUMPTIONS = ["node labels are mutually comparable and used only through ==, ha
                "times sent as 'non-integer' to insertions are 1.5, '3', 3.0, numpy.int64(3), numpy.int32(0) - what the unchanged "
                "isinstance(time, int) test refuses; Python bool is not generated as a time; lookups / removals get 1.5 and '3' only "
                "(3.0 and numpy.int64(3) equal the key 3 there)",
-               "weights are multiples of 1/4 below 2^40 (float + is exact), metadata values come from a fixed JSON pool",
+               "weights are multiples of 1/4 below 2^40 (float + is exact), metadata values come from a fixed JSON pool; metadata "
+               "objects are dicts or - as the unchanged code stores whatever it is given - a tag string, a number, a list; the "
+               "hypergraph-level metadata is always a dict (clear() calls .clear() on it)",
+               "incidence metadata are outside the property's map (time, node set) -> (weight, metadata): the oracle follows the "
+               "code (key = ((time, canonical nodes), node) for any node label, record must be present when set / read, no removal "
+               "and not clear() drops an entry); demanded in the property's words: copy() carries them, no query changes them",
+               "the serialisation helpers (expose_data_structures / populate_from_dict, binary file) do not carry incidence "
+               "metadata and the JSON file adds the keys 'time' / 'weight' to the hyperedge metadata (both as the unchanged code "
+               "does, C06's subject); the JSON route is taken only when no numpy scalar and no non-mapping metadata is stored",
                "argument containers are those the unchanged code accepts: add_edges needs `list`s for the edge and time list (anything "
                "else must be rejected as a whole) and hashable hyperedges when weights are given; weights / metadata lists are "
                "indexable sequences; add_nodes with a metadata dict gets a re-iterable node collection; unordered node collections "
@@ -56,14 +80,21 @@ TRUSTED = ["Hypergraph objects returned by aggregate()/subhypergraph() are read 
            "(Hypergraph.add_edge/add_node are modelled at spec level: HSpec in Model/C03.lean)",
            "the spec-level Python oracle in harness/c03.py (class Spec) is hand-written from the property text",
            "container types, object identity and aliasing are outside the Lean model (value-based lists of ranks): they are "
-           "checked by the harness only (same history, same expected content)"]
+           "checked by the harness only (same history, same expected content)",
+           "getters outside the model (matrices, get_mapping, expose_*, raw tables, str) are compared object against object "
+           "only (result of a route vs its source), through a type-tagged canonical form",
+           "hoad_links in harness/c03.py re-states the HOADmodel recipe (same draws from random.Random(seed))"]
 BUDGET_S = {"quick": 75, "thorough": 1500}
 
-VALPOOL = ["a", 7, 2.5, [1, "x"], {"z": 1}, None]
+VALPOOL = ["a", -7, -2.5, [1, "x"], {"z": 1}, None, "", []]
 RESERVED_VALS = {90: False, 91: True, 92: "TemporalHypergraph"}
-RESERVED_KEYS = {100: "weighted", 101: "type"}
+RESERVED_KEYS = {100: "weighted", 101: "type", 102: "time", 103: "weight"}   # 102 / 103: written by the JSON file format
+OPQ = 104                     # metadata that is NOT a mapping: the token list [[104, v]] stands for the object VALPOOL[v]
+OPAQUE_VALS = [0, 1, 2, 3, 6, 7]   # 'a', -7, -2.5, [1, 'x'], '', []  (stored as passed by the unchanged code)
+NUM0 = 1000                   # value token of a non-negative number x with 4x integral: NUM0 + 4x (times, weights)
 ALLT = list(range(0, 13))     # abstract time steps; a history multiplies them by its time scale (Gen.S)
-TSCALES = [1, 1, 1, 1, 257, 1000, 2 ** 40, 2 ** 64 + 3]
+# 2^61-1 is the modulus of CPython's integer hash: every time k*(2^61-1) hashes to 0;  2^53+1, 10^18, 2^64+3: beyond float64
+TSCALES = [1, 1, 1, 1, 1, 257, 1000, 2 ** 40, 2 ** 53 + 1, 10 ** 18, 2 ** 61 - 1, 2 ** 64 + 3]
 ORDERS = [-1, 0, 1, 2, 3, 4]
 SIZES = [0, 1, 2, 3, 4, 5]
 
@@ -76,6 +107,9 @@ def key_py(k):
 
 
 def val_py(v):
+    if v >= NUM0:
+        q = v - NUM0
+        return q // 4 if q % 4 == 0 else q / 4
     return _copy.deepcopy(RESERVED_VALS[v] if v in RESERVED_VALS else VALPOOL[v])
 
 
@@ -93,15 +127,28 @@ def key_tok(k):
 
 def val_tok(v):
     try:
+        if isinstance(v, (int, float)) and not isinstance(v, bool) and v >= 0 and v == v and v != math.inf:
+            fr = Fraction(v) * 4
+            if fr.denominator == 1:
+                return NUM0 + fr.numerator
         return _VAL_TOK.get(json.dumps(v, sort_keys=True), "?" + repr(v))
     except Exception:
         return "?" + repr(v)
 
 
+def is_opq(md):
+    """token metadata (list of pairs or dict) that stands for a non-mapping object"""
+    if md is None:
+        return False
+    return OPQ in (md if isinstance(md, dict) else [k for k, _ in md])
+
+
 def md_py(md):
-    """token metadata (list of [k, v]) -> fresh python dict; None stays None"""
+    """token metadata (list of [k, v]) -> fresh python dict; None stays None; [[OPQ, v]] -> the object itself"""
     if md is None:
         return None
+    if is_opq(md):
+        return val_py(md[0][1])
     return {key_py(k): val_py(v) for k, v in md}
 
 
@@ -112,7 +159,8 @@ def f_meta_tok(items):
 
 def f_meta(d):
     if not isinstance(d, dict):
-        return "?" + repr(d)
+        t = val_tok(d)
+        return f_meta_tok([(OPQ, t)]) if isinstance(t, int) and t in OPAQUE_VALS else "?" + repr(d)
     return f_meta_tok([(key_tok(k), val_tok(v)) for k, v in d.items()])
 
 
@@ -147,7 +195,7 @@ def fresh(v):
     if isinstance(v, int):
         return int(str(v))
     if isinstance(v, float):
-        return float(repr(v))
+        return float(repr(float(v)))
     if isinstance(v, str):
         return "".join(list(v)) if len(v) > 1 else v
     return _copy.deepcopy(v)
@@ -269,6 +317,27 @@ class Spec:
         self.nodes = {}          # rank -> {ktok: vtok}
         self.recs = {}           # (t, frozenset) -> [w, {ktok: vtok}]   (creation order)
         self.hmeta = {100: 91 if weighted else 90, 101: 92}
+        # the class has one more table, outside the property's map: ((time, node set), node) -> metadata, written by
+        # set_incidence_metadata only - no removal and not clear() touches it (modelled as the code is)
+        self.imd = {}
+
+    def has_opaque(self):
+        return any(OPQ in m for m in self.nodes.values()) or any(OPQ in v[1] for v in self.recs.values())
+
+    def derived(self, route):
+        """the object that `route` makes of this one: copy / deepcopy / pickle carry everything; the serialisation helpers
+        (expose_data_structures -> populate_from_dict, binary file) everything but the incidence table; the JSON file is
+        re-read through add_node / add_edge with the reserved keys 'time' (and 'weight') left in the hyperedge metadata"""
+        c = self.clone()
+        if route in TABLE_ROUTES:
+            c.imd = {}
+        elif route == "json":
+            c.imd = {}
+            for k, v in c.recs.items():
+                if self.weighted:
+                    v[1][103] = NUM0 + v[0]
+                v[1][102] = val_tok(k[0])
+        return c
 
     def clone(self):
         return _copy.deepcopy(self)
@@ -397,23 +466,33 @@ class Spec:
             elif name == "attrh":
                 self.hmeta[a[0]] = a[1]
             elif name == "attrn":
-                if a[0] not in self.nodes:
+                if a[0] not in self.nodes or OPQ in self.nodes[a[0]]:
                     raise Rej()
                 self.nodes[a[0]][a[1]] = a[2]
             elif name == "attre":
                 k = self.key(a[0], a[1])
-                if k is None:
+                if k is None or OPQ in self.recs[k][1]:
                     raise Rej()
                 self.recs[k][1][a[2]] = a[3]
             elif name == "delattrn":
-                if a[0] not in self.nodes or a[1] not in self.nodes[a[0]]:
+                if a[0] not in self.nodes or a[1] not in self.nodes[a[0]] or OPQ in self.nodes[a[0]]:
                     raise Rej()
                 del self.nodes[a[0]][a[1]]
             elif name == "delattre":
                 k = self.key(a[0], a[1])
-                if k is None or a[2] not in self.recs[k][1]:
+                if k is None or a[2] not in self.recs[k][1] or OPQ in self.recs[k][1]:
                     raise Rej()
                 del self.recs[k][1][a[2]]
+            elif name == "setimeta":
+                k = self.key(a[0], a[1])
+                if k is None:
+                    raise Rej()
+                self.imd[(k, a[2])] = dict(a[3])
+            elif name == "attri":
+                k = self.key(a[0], a[1])
+                if k is None or (k, a[2]) not in self.imd or OPQ in self.imd[(k, a[2])]:
+                    raise Rej()
+                self.imd[(k, a[2])][a[3]] = a[4]
             elif name == "clear":
                 self.nodes, self.recs, self.hmeta = {}, {}, {}
             else:
@@ -603,12 +682,23 @@ class Spec:
                            for i in range(mt // w + 1)), "|")
         if name in ("allemeta", "iter"):
             return None
+        if name == "imeta":
+            k = self.key(a[0], a[1])
+            if k is None or (k, a[2]) not in self.imd:
+                raise Rej()
+            return f_meta_tok(self.imd[(k, a[2])].items())
+        if name == "allimeta":
+            return f_join("%s^%s=%s" % (fk(k), x, f_meta_tok(self.imd[(k, x)].items()))
+                          for k, x in sorted(self.imd, key=lambda p: (skey(p[0]), p[1])))
         raise AssertionError(name)
 
 
 # ------------------------------------------------------------------------------------------------------------
 # the implementation side
 
+COPY_ROUTES = ("copy", "deepcopy", "pickle")    # every table
+TABLE_ROUTES = ("tables", "hgx")                # every table but _incidences_metadata (serialisation helpers, binary file)
+ROUTES = COPY_ROUTES + TABLE_ROUTES + ("json",)
 EK = ["tuple", "list", "set", "frozenset", "gen", "nparray", "dictkeys", "range", "tuple", "list"]
 NK = ["list", "tuple", "set", "frozenset", "gen", "nparray", "dictkeys", "range", "list"]
 JUNK = "junk"
@@ -648,6 +738,241 @@ def batch_rejects(sh, raws, ws):
     return sh["el"] != "list" or sh["tl"] != "list" or (ws is not None and len(raws) > 0 and sh["ek"] == "list")
 
 
+# -- objects that come out of the library itself: the activity-driven generator, the routes from one object to another
+
+def hoad_links(N, acts, T, seed):
+    """the hyperlinks HOADmodel hands to the constructor, from the documented recipe with the same draws"""
+    import random
+    r = random.Random(seed)
+    links = []
+    for order, av in acts:
+        for t in range(T):
+            for i in range(N):
+                if av[i] > r.random():
+                    nl = r.sample(range(N), order)
+                    nl.append(i)
+                    if len(nl) == len(set(nl)):
+                        links.append((t, tuple(nl)))
+    return links
+
+
+def hoad_call(N, acts, T, seed):
+    import random
+    from hypergraphx.generation.activity_driven import HOADmodel
+    st = random.getstate()
+    random.seed(seed)
+    try:
+        return HOADmodel(N, {o: list(av) for o, av in acts}, time=T)
+    finally:
+        random.setstate(st)
+
+
+_TMP = []
+
+
+def tmp_path(ext):
+    import atexit
+    import os
+    import shutil
+    import tempfile
+    if not _TMP:
+        _TMP.append(tempfile.mkdtemp(prefix="c03_"))
+        atexit.register(shutil.rmtree, _TMP[0], True)
+    return os.path.join(_TMP[0], "h." + ext)
+
+
+def derive_obj(h, route):
+    """every way in which a user gets a TemporalHypergraph out of another one"""
+    import pickle
+    from hypergraphx import TemporalHypergraph
+    if route == "copy":
+        return h.copy()
+    if route == "deepcopy":
+        return _copy.deepcopy(h)
+    if route == "pickle":
+        return pickle.loads(pickle.dumps(h))
+    if route == "tables":      # what the binary loader does, without the file
+        new = TemporalHypergraph(weighted=h.is_weighted())
+        new.populate_from_dict(_copy.deepcopy(h.expose_data_structures()))
+        return new
+    if route in ("hgx", "json"):
+        from hypergraphx.readwrite.load import load_hypergraph
+        from hypergraphx.readwrite.save import save_hypergraph
+        path = tmp_path(route)
+        save_hypergraph(h, path, binary=(route == "hgx"))
+        return load_hypergraph(path)
+    raise AssertionError(route)
+
+
+# -- "the copy equals the original in EVERY public getter": the getters are enumerated with inspect, the arguments come
+#    from a table keyed by parameter NAMES (a getter with a required parameter the table does not know is counted as unprobed)
+
+MUTATORS = ("add_", "remove_", "set_", "clear", "populate_from_dict", "copy")
+DUNDERS = ("__len__", "__iter__", "__str__", "__contains__", "__eq__", "__getitem__")
+GETTERS = {}
+
+
+def getter_names(cls):
+    import inspect
+    if cls not in GETTERS:
+        out = []
+        for name, f in inspect.getmembers(cls, callable):
+            if name.startswith("_") and name not in DUNDERS:
+                continue
+            if name.startswith(MUTATORS) or f is getattr(object, name, None):
+                continue
+            try:
+                ps = [q for q in inspect.signature(f).parameters.values() if q.name != "self"]
+            except Exception:
+                continue
+            req = tuple(q.name for q in ps if q.default is q.empty and q.kind in (q.POSITIONAL_ONLY, q.POSITIONAL_OR_KEYWORD))
+            opt = [q.name for q in ps if q.default is not q.empty]
+            out.append((name, req, opt))
+        GETTERS[cls] = out
+    return GETTERS[cls]
+
+
+def nv(x, depth=0):
+    """type-tagged canonical form of whatever a getter returns (sets / dicts sorted, arrays as lists, library objects by
+    their own getters)"""
+    if depth > 8:
+        return ("deep", type(x).__name__)
+    if x is None or isinstance(x, (bool, int, float, str, bytes)):
+        return (type(x).__name__, repr(x))
+    if isinstance(x, (tuple, list)):
+        return (type(x).__name__, [nv(y, depth + 1) for y in x])
+    if isinstance(x, (set, frozenset)):
+        return (type(x).__name__, sorted((nv(y, depth + 1) for y in x), key=repr))
+    if isinstance(x, dict):
+        return ("dict", sorted(([nv(k, depth + 1), nv(v, depth + 1)] for k, v in x.items()), key=repr))
+    tn = type(x).__name__
+    if hasattr(x, "tocoo") and hasattr(x, "shape"):
+        c = x.tocoo()
+        return ("sparse", tuple(c.shape), sorted((int(i), int(j), repr(v)) for i, j, v in zip(c.row, c.col, c.data) if v != 0))
+    if hasattr(x, "tolist") and hasattr(x, "shape"):
+        return ("ndarray", tuple(x.shape), nv(x.tolist(), depth + 1))
+    if hasattr(x, "classes_"):
+        return ("encoder", nv(list(x.classes_), depth + 1))
+    if tn in ("Hypergraph", "TemporalHypergraph", "DirectedHypergraph", "MultiplexHypergraph"):
+        return (tn, [(g, nv(call_getter(x, g, (), {}), depth + 1)) for g in
+                     ("get_nodes", "get_edges", "get_weights", "get_all_nodes_metadata", "get_all_edges_metadata",
+                      "get_hypergraph_metadata", "is_weighted")] +
+                [("edges_metadata", nv(call_getter(x, "get_edges", (), {"metadata": True}), depth + 1))])
+    if hasattr(x, "__next__") or tn in ("dict_keys", "dict_values", "dict_items", "generator"):
+        return ("iter", [nv(y, depth + 1) for y in x])
+    return ("object", tn)
+
+
+def call_getter(h, name, a, kw):
+    try:
+        return getattr(h, name)(*a, **kw)
+    except Timeout:
+        raise
+    except Exception as e:
+        return ("raises", type(e).__name__)
+
+
+def view_probes(h, absent, S):
+    """argument values for the getters, read off the (source) object through its listings"""
+    P = {"nodes": [], "recs": [], "incs": [], "absent": absent, "S": S}
+    try:
+        P["nodes"] = list(h.get_nodes())
+        P["recs"] = list(h.get_edges())
+        P["incs"] = [k for k in h.get_all_incidences_metadata() if isinstance(k, tuple) and len(k) == 2 and
+                     isinstance(k[0], tuple) and len(k[0]) == 2 and isinstance(k[0][1], tuple)]
+    except Exception:
+        pass
+    P["recs"] = [r for r in P["recs"] if isinstance(r, tuple) and len(r) == 2 and isinstance(r[1], tuple)]
+    return P
+
+
+def _req_args(req, P):
+    ab, recs, nodes = P["absent"], P["recs"][:12], P["nodes"]
+    if req == ():
+        return [()]
+    if req == ("node",):
+        return [(x,) for x in nodes] + [(ab,)]
+    if req == ("edge", "time"):
+        return [(r[1], r[0]) for r in recs] + [((ab,), 0)] + [(r[1], r[0] + 1) for r in recs[:1]]
+    if req == ("edge", "time", "node"):
+        return ([(k[0][1], k[0][0], k[1]) for k in P["incs"][:12]] + [(r[1], r[0], r[1][0]) for r in recs[:4] if len(r[1])] +
+                [((ab,), 0, ab)])
+    if req == ("edge",):
+        return [(e,) for e in list({r[1]: 1 for r in recs})[:8]] + [((ab,),)]
+    if req == ("time_window",):
+        mt = max([r[0] for r in recs] or [0])
+        return [(w,) for w in sorted({1 if P["S"] == 1 else P["S"], mt + 1, max(1, (mt + 1) // 2)})]
+    return None
+
+
+def _opt_values(name, P):
+    ts = sorted({r[0] for r in P["recs"]})
+    if name == "order":
+        return [0, 1, 2]
+    if name == "size":
+        return [1, 2, 3]
+    if name in ("metadata", "asdict", "return_mapping", "add_all_nodes", "up_to"):
+        return [True]
+    if name == "t":
+        return [2]
+    if name == "time_window" and ts:
+        return [(ts[0], ts[-1] + 1), (ts[0], ts[-1]), (ts[len(ts) // 2], ts[len(ts) // 2] + 1)]
+    return []
+
+
+def full_view(h, P, stats=None):
+    """{(getter, arguments): canonical result} over every public getter of the object's class"""
+    out = {}
+    for name, req, opt in getter_names(type(h)):
+        args = _req_args(req, P)
+        if args is None:
+            if stats is not None:
+                stats.setdefault("getters_unprobed", {})[name] = 1
+            continue
+        if stats is not None:
+            stats.setdefault("getters_probed", {})[name] = 1
+        for a in args:
+            # the call with the defaults, then every option on its own (return_mapping=True answers a superset of the
+            # default call: asked instead of it - the matrix routines are the expensive ones)
+            calls = [(a, {})] if "return_mapping" not in opt else []
+            for o in (opt if len(args) <= 8 or name.startswith("get_") else []):
+                for v in _opt_values(o, P):
+                    calls.append((a, {o: v}))
+                    if o == "up_to":
+                        calls[-1] = (a, {"up_to": True, "order": 1}) if "order" in opt else calls[-1]
+            for aa, kw in calls:
+                fa = tuple(fresh(x) if not isinstance(x, tuple) else tuple(fresh(y) for y in x) for x in aa)
+                out["%s(%s)" % (name, ", ".join([repr(x) for x in aa] + ["%s=%r" % kv for kv in sorted(kw.items())]))] = \
+                    nv(call_getter(h, name, fa, dict(kw)))
+    return out
+
+
+def narrow(x, y, path=""):
+    """the first place where two canonical forms differ: (path, part of x, part of y)"""
+    if (isinstance(x, (tuple, list)) and isinstance(y, (tuple, list)) and type(x) is type(y) and len(x) == len(y)
+            and len(x) > 0):
+        for i, (u, v) in enumerate(zip(x, y)):
+            if u != v:
+                return narrow(u, v, "%s[%d]" % (path, i))
+    return path, x, y
+
+
+def view_diff(a, b, skip=None):
+    """first getter call on which two full views differ (None: equal)"""
+    for k in a:
+        if skip and skip(k):
+            continue
+        if k not in b or a[k] != b[k]:
+            where, x, y = narrow(a[k], b.get(k))
+            return k + (" at " + where if where else ""), x, y
+    return None
+
+
+def is_inc_getter(call):
+    import re
+    return re.match(r"\w*incidences?_metadata", call) is not None
+
+
 class Impl:
     """runs ops/queries on real TemporalHypergraph objects; labels = fresh copies of lab[rank]"""
 
@@ -661,6 +986,7 @@ class Impl:
         self.held = []         # (result, copy taken when it was returned, query) - results the caller keeps
         self.sc = 0
         self.stats = {} if stats is None else stats
+        self.used_np = False   # numpy scalars may sit in the object (labels / weights taken from an array that was passed)
         self.np_ok = (all(type(v) is int and abs(v) < 2 ** 62 for v in lab) or all(type(v) is float for v in lab)
                       or all(type(v) is str for v in lab))
         _WC[0] = 0
@@ -710,6 +1036,7 @@ class Impl:
         if kind == "gen":
             return (x for x in labs)
         if kind == "nparray":
+            self.used_np = True
             return self.keep(_np().array(labs) if labs else _np().array([], dtype=int))
         if kind == "dictkeys":
             return self.keep({x: None for x in labs}).keys()
@@ -731,6 +1058,7 @@ class Impl:
             return tuple(items)
         if kind == "nparray":
             np = _np()
+            self.used_np = True
             try:
                 return self.keep(np.array(items) if all(isinstance(x, (int, float)) and not isinstance(x, bool) and
                                                          abs(x) < 2 ** 62 for x in items) else np.array(items, dtype=object))
@@ -839,8 +1167,15 @@ class Impl:
                 self.slots[slot] = TemporalHypergraph(edge_list=self.seq(edges, "list"),
                                                       time_list=self.seq([t_py(t) for t in ts], "list"), **kw)
             return
+        if name == "hoad":
+            self.slots[op[1]] = hoad_call(op[2], op[3], op[4], op[5])
+            return
         if name == "copy":
             self.slots[op[2]] = self.slots[op[1]].copy()
+            return
+        if name == "derive":
+            self.cnt("derive", op[3])
+            self.slots[op[2]] = derive_obj(self.slots[op[1]], op[3])
             return
         h, a = self.slots[op[1]], op[2:]
         if name == "addnode":
@@ -927,6 +1262,11 @@ class Impl:
             h.remove_attr_from_edge_metadata(self.E(a[0], "delattre", a[1]), t_py(a[1]), key_py(a[2]))
         elif name == "clear":
             h.clear()
+        elif name == "setimeta":
+            h.set_incidence_metadata(self.E(a[0], "setimeta", a[1]), t_py(a[1]), self.lb(a[2]), md_py(a[3]))
+        elif name == "attri":
+            # the caller edits the dictionary that get_incidence_metadata hands out (stored by reference by design)
+            h.get_incidence_metadata(self.E(a[0], "attri", a[1]), t_py(a[1]), self.lb(a[2]))[key_py(a[3])] = val_py(a[4])
         else:
             raise AssertionError(name)
 
@@ -1108,6 +1448,15 @@ class Impl:
             return f_join("%s=%s" % (i, f_meta(d[i])) for i in sorted(d))
         if name == "hmeta":
             return f_meta(h.get_hypergraph_metadata())
+        if name == "imeta":
+            return f_meta(h.get_incidence_metadata(self.E(a[0], "q_imeta", a[1]), t_py(a[1]), self.lb(a[2])))
+        if name == "allimeta":
+            d = h.get_all_incidences_metadata()
+            rows = sorted(((k[0][0], [(isinstance(x, str), x) for x in self.RE(k[0][1])], (isinstance(self.R(k[1]), str), self.R(k[1]))),
+                           "%s^%s=%s" % (self.frec(k[0]), self.R(k[1]), f_meta(v))) for k, v in d.items())
+            out = f_join(r[1] for r in rows)
+            S(d, False)          # a fresh dict whose values are the stored dictionaries
+            return out
         if name == "isolated":
             r = h.isolated_nodes(**self.flt(*a))
             out = f_nodes(self.R(n) for n in r)
@@ -1179,9 +1528,18 @@ def op_lines(op):
             ls.append("addnode %d %d %s" % (slot, n, wl_meta(m)))
         ls.append(op_lines(["addedges", slot, raws, ts, ws, mds])[0])
         return ls
+    if name == "hoad":
+        links = hoad_links(op[2], op[3], op[4], op[5])
+        return ["new %d 0" % op[1], op_lines(["addedges", op[1], [list(e) for _, e in links], [t for t, _ in links], None, None])[0]]
     if name == "copy":
         return ["copy %d %d" % (op[1], op[2])]
+    if name == "derive":
+        return ["derive %s %d %d" % (op[3], op[1], op[2])]      # (text for messages; the model lines come from derive_lines)
     s, a = op[1], op[2:]
+    if name == "setimeta":
+        return ["setimeta %d %s %s %d %s" % (s, f_edge(a[0]), t_wire(a[1]), a[2], wl_meta(a[3]))]
+    if name == "attri":
+        return ["attri %d %s %s %d %d %d" % (s, f_edge(a[0]), t_wire(a[1]), a[2], a[3], a[4])]
     if name == "addnode":
         return ["addnode %d %d %s" % (s, a[0], wl_meta(a[1]))]
     if name == "addnodes":
@@ -1224,6 +1582,38 @@ def op_lines(op):
     raise AssertionError(name)
 
 
+def route_text(route):
+    return {"copy": "copy()", "deepcopy": "copy.deepcopy(h)", "pickle": "pickle.loads(pickle.dumps(h))",
+            "tables": "TemporalHypergraph(weighted=h.is_weighted()).populate_from_dict(deepcopy(h.expose_data_structures()))",
+            "hgx": "save_hypergraph(h, 'h.hgx', binary=True); load_hypergraph('h.hgx')",
+            "json": "save_hypergraph(h, 'h.json'); load_hypergraph('h.json')"}[route]
+
+
+def derive_lines(op, route, sp, impl, src):
+    """model lines of a route: slot copy (every table), `derive tables` (all but the incidence table); the JSON file is
+    read back through add_node / add_edge in the order of the source's listings"""
+    i, j = op[1], op[2]
+    if route in COPY_ROUTES:
+        return ["copy %d %d" % (i, j)]
+    if route in TABLE_ROUTES:
+        return ["derive tables %d %d" % (i, j)]
+    new = sp.derived(route)
+    try:
+        nodes = [impl.rank[x] for x in src.get_nodes()]
+        recs = [(r[0], frozenset(impl.rank[x] for x in r[1])) for r in src.get_edges()]
+        if sorted(nodes) != sorted(new.nodes) or set(recs) != set(new.recs) or len(recs) != len(new.recs):
+            raise KeyError
+    except Exception:
+        nodes, recs = list(new.nodes), list(new.recs)
+    ls = ["new %d %d" % (j, 1 if new.weighted else 0), "sethmeta %d %s" % (j, wl_meta(list(new.hmeta.items())))]
+    for x in nodes:
+        ls.append("addnode %d %d %s" % (j, x, wl_meta(list(new.nodes[x].items()))))
+    for k in recs:
+        ls.append("addedge %d %s %s %s %s" % (j, f_edge(sorted(k[1])), k[0], new.recs[k][0] if new.weighted else "n",
+                                              wl_meta(list(new.recs[k][1].items()))))
+    return ls
+
+
 def ctor_hmeta(w, hmd):
     """constructor: the caller's hypergraph metadata, then 'weighted' and 'type' written over it"""
     d = {k: v for k, v in hmd}
@@ -1254,6 +1644,10 @@ def q_line(slot, q):
         return "%s %s %s %d" % (p, oi(a[0]), oi(a[1]), a[2])
     if name in ("checkedge", "weight", "emeta"):
         return "%s %s %s" % (p, f_edge(a[0]), t_wire(a[1]))
+    if name == "imeta":
+        return "%s %s %s %d" % (p, f_edge(a[0]), t_wire(a[1]), a[2])
+    if name == "allimeta":
+        return p
     if name == "weights":
         return "%s %s %s %d %d" % (p, oi(a[0]), oi(a[1]), a[2], a[3])
     if name in ("incident", "neighbors", "degree", "isisolated"):
@@ -1270,7 +1664,7 @@ def q_line(slot, q):
 
 
 DIGEST_QS = [("nodesmeta",), ("edges", None, None, None, 0, 1), ("weights", None, None, 0, 1), ("allemeta",),
-             ("iter",), ("hmeta",), ("weighted",)]
+             ("iter",), ("hmeta",), ("weighted",), ("allimeta",)]
 
 
 def digest_queries(n):
@@ -1329,6 +1723,18 @@ def sweep_queries(rng, n, sp, full, S=1):
         rng.shuffle(e)
         for nm in ("checkedge", "weight", "emeta"):
             qs.append((nm, e, t))
+    # per-incidence queries: every entry of the table (also entries of records that were removed since), every
+    # (record, member) pair of some records, an absent node, an absent record
+    for (k, x) in list(sp.imd)[:10]:
+        e = sorted(k[1])
+        rng.shuffle(e)
+        qs.append(("imeta", e, k[0], x))
+    for e, t in keys[:4]:
+        for x in list(e)[:2] + [n]:
+            qs.append(("imeta", list(e), t, x))
+    for e, t in probes[-4:]:
+        qs.append(("imeta", list(e), t, rng.randrange(n)))
+    qs.append(("allimeta",))
     seen = set()
     for e, _ in probes:
         if tuple(sorted(e)) not in seen:
@@ -1357,11 +1763,23 @@ def sweep_queries(rng, n, sp, full, S=1):
         qs.append(("snap", "bad", alln))
         for w in rng.sample(wins, 30 if full else 8) + rng.sample(cw, 3):
             qs.append(("snap", w, alln))
-    for w in widths(S):
+    cw = [w for w in cut_widths(sp) if w not in widths(S)]
+    for w in widths(S) + (cw if full or len(cw) <= 4 else rng.sample(cw, 4)):
         qs.append(("agg", w))
     for w in (0, -1, -3, "x", "y", 40 * S):
         qs.append(("agg", w))
     return qs
+
+
+def cut_widths(sp):
+    """widths placed at the content: the largest time M itself, M +- 1, halves and thirds of M + 1 and their neighbours -
+    where (M + 1) / w is within rounding of an integer (few windows each, whatever the magnitude of the times)"""
+    ts = [k[0] for k in sp.recs]
+    if not ts or max(ts) == 0:
+        return []
+    m = max(ts)
+    c = {m, m + 1, m - 1, (m + 1) // 2, (m + 1) // 2 + 1, m // 2, (m + 1) // 3, (m + 1) // 3 + 1, m // 3, m + 2}
+    return sorted(w for w in c if w >= 1 and m // w <= 14)
 
 
 def probe_queries(rng, n, g):
@@ -1398,9 +1816,12 @@ def random_queries(rng, n, sp, k, S=1):
             qs.append(("agg", rng.choice(widths(S))))
         elif r < 0.75:
             qs.append(("snap", rng.choice([None, (rng.choice(g), rng.choice(g))]), rng.randint(0, 1)))
-        elif r < 0.85 and sp.recs:
+        elif r < 0.82 and sp.recs:
             k0 = rng.choice(list(sp.recs))
             qs.append((rng.choice(["weight", "emeta", "checkedge"]), sorted(k0[1]), k0[0]))
+        elif r < 0.86 and sp.imd:
+            k0, x = rng.choice(list(sp.imd))
+            qs.append(("imeta", sorted(k0[1]), k0[0], x))
         else:
             qs.append((rng.choice(["sizes", "distsizes", "maxsize", "uniform", "mintime", "maxtime", "len", "nodes"]),))
     return qs
@@ -1448,7 +1869,10 @@ def oracle_derivations(ctx, case, impl, slot, n, rng, full, S=1):
                             % (win, t, got, t, want))
                         break
             # aggregate
-            for w in (widths(S) if full else rng.sample(widths(S), 5)):
+            mt0 = max([k[0] for k in recs] or [0])
+            cw = sorted({w for w in (mt0, mt0 + 1, mt0 - 1, (mt0 + 1) // 2, (mt0 + 1) // 3, mt0 // 2 + 1)
+                         if w >= 1 and mt0 // w <= 14})
+            for w in ((widths(S) if full else rng.sample(widths(S), 5)) + (cw if full or len(cw) <= 3 else rng.sample(cw, 3))):
                 res = h.aggregate(fresh(w))
                 if not recs:
                     if len(res) != 0:
@@ -1501,10 +1925,14 @@ def oracle_derivations(ctx, case, impl, slot, n, rng, full, S=1):
 # ------------------------------------------------------------------------------------------------------------
 # generator
 
-def gen_md(rng, allow_none=True):
+def gen_md(rng, allow_none=True, opq=False):
+    """metadata tokens; with `opq` now and then an object that is not a mapping (a tag string, a number, a list, '' / []
+    - the unchanged code stores whatever it is given)"""
     r = rng.random()
     if allow_none and r < 0.45:
         return None
+    if opq and r > 0.93:
+        return [[OPQ, rng.choice(OPAQUE_VALS)]]
     if r < 0.6:
         return []
     ks = rng.sample([0, 1], rng.randint(1, 2))
@@ -1532,6 +1960,52 @@ class Gen:
         if rng.random() < 0.5 and 0 not in self.tpool:
             self.tpool[0] = 0
         self.epool = [self.rand_set() for _ in range(rng.randint(3, 5))]
+        self.retry = None        # the corrected form of the call that was just sent malformed
+        self.pending = []        # in-place edits owed after a route (a copy that shares a stored dictionary shows only then)
+
+    def inplace(self, kind, slot, sp):
+        """an edit INSIDE a dictionary that is stored already (node / hyperedge / incidence / hypergraph level)"""
+        rng = self.rng
+        v = rng.randrange(len(VALPOOL))
+        if kind == "attri":
+            live = [p for p in sp.imd if p[0] in sp.recs and OPQ not in sp.imd[p]]
+            if live:
+                k, x = rng.choice(live)
+                return ["attri", slot, sorted(k[1]), k[0], x, rng.choice([0, 1]), v]
+        if kind == "attre":
+            ks = [k for k in sp.recs if OPQ not in sp.recs[k][1]]
+            if ks:
+                k = rng.choice(ks)
+                return ["attre", slot, sorted(k[1]), k[0], rng.choice([0, 1]), v]
+        if kind == "attrn":
+            ns = [x for x in sp.nodes if OPQ not in sp.nodes[x]]
+            if ns:
+                return ["attrn", slot, rng.choice(ns), rng.choice([0, 1]), v]
+        if kind == "attrh":
+            return ["attrh", slot, rng.choice([0, 1, 100]), v]
+        return None
+
+    def inc_op(self, slot, sp, mal):
+        """set_incidence_metadata / an edit of the dictionary it stored: present records (members, other nodes, a label that
+        is no node), entries of records that were removed since, absent records"""
+        rng = self.rng
+        live = [p for p in sp.imd if p[0] in sp.recs and OPQ not in sp.imd[p]]
+        if live and not mal and rng.random() < 0.4:
+            k, x = rng.choice(live)
+            e = sorted(k[1])
+            rng.shuffle(e)
+            return ["attri", slot, e, k[0], x, rng.choice([0, 1]), rng.randrange(len(VALPOOL))]
+        if sp.imd and rng.random() < 0.1:
+            k, x = rng.choice(list(sp.imd))          # mostly an entry whose record is gone: must be refused
+            return ["attri", slot, sorted(k[1]), k[0], x, 0, rng.randrange(len(VALPOOL))]
+        e, t = self.present(sp)
+        if mal:
+            t = rng.choice([self.badtime(), (t + 1) if isinstance(t, int) else 0])
+            self.retry = ["setimeta", slot, list(e), self.time() if not isinstance(t, int) or t < 0 else t - 1,
+                          rng.randrange(self.n), gen_md(rng, False)]
+        c = rng.random()
+        x = rng.choice(list(e)) if (e and c < 0.6) else (self.n if c > 0.88 else rng.randrange(self.n))
+        return ["setimeta", slot, e, t, x, gen_md(rng, False, True)]
 
     def rand_set(self):
         k = self.rng.choice([0, 1, 1, 2, 2, 2, 2, 3, 3, 3, 4, 4])
@@ -1595,21 +2069,37 @@ class Gen:
 
     def op(self, slot, sp, two):
         rng = self.rng
+        while self.pending:
+            op = self.inplace(self.pending.pop(), slot, sp)
+            if op is not None:
+                return op
+        if self.retry is not None:
+            # a call that was just refused is sent again in its corrected form (same hyperedge): whatever the refused call
+            # left behind half-way meets the call that would have found it
+            op, self.retry = self.retry, None
+            if rng.random() < 0.7 and op[1] == slot:
+                return op
         r = rng.random()
         mal = rng.random() < 0.10
+        if rng.random() < 0.07:
+            return self.inc_op(slot, sp, mal)
         if r < 0.27:
             if mal:
+                # refused insertions of new AND of present records; the next call is mostly the corrected one
+                e, t = self.present(sp) if (sp.recs and rng.random() < 0.4) else (self.edge(), self.time())
                 if rng.random() < 0.6 or sp.weighted:
-                    return ["addedge", slot, self.edge(), self.badtime(True), self.weight(sp), gen_md(rng)]
-                return ["addedge", slot, self.edge(), self.time(), self.weight(sp, False), gen_md(rng)]
+                    self.retry = ["addedge", slot, list(e), t, self.weight(sp), gen_md(rng, True, True)]
+                    return ["addedge", slot, e, self.badtime(True), self.weight(sp), gen_md(rng, True, True)]
+                self.retry = ["addedge", slot, list(e), t, self.weight(sp), gen_md(rng, True, True)]
+                return ["addedge", slot, e, t, self.weight(sp, False), gen_md(rng, True, True)]
             if sp.recs and rng.random() < 0.2:
                 et = self.nested(sp)
                 if et is not None:
-                    return ["addedge", slot, et[0], et[1], self.weight(sp), gen_md(rng)]
+                    return ["addedge", slot, et[0], et[1], self.weight(sp), gen_md(rng, True, True)]
             if sp.recs and rng.random() < 0.35:
                 e, t = self.present(sp)
-                return ["addedge", slot, e, t, self.weight(sp), gen_md(rng)]
-            return ["addedge", slot, self.edge(), self.time(), self.weight(sp), gen_md(rng)]
+                return ["addedge", slot, e, t, self.weight(sp), gen_md(rng, True, True)]
+            return ["addedge", slot, self.edge(), self.time(), self.weight(sp), gen_md(rng, True, True)]
         if r < 0.35:
             k = rng.randint(0, 4)
             raws = [self.edge() for _ in range(k)]
@@ -1624,7 +2114,7 @@ class Gen:
                             seen.add(tuple(e))
                             r2.append(e), t2.append(t), w2.append(w)
                     raws, ts, ws = r2, t2, w2
-            mds = [gen_md(rng, False) for _ in raws] if rng.random() < 0.4 else None
+            mds = [gen_md(rng, False, True) for _ in raws] if rng.random() < 0.4 else None
             if ws is not None and rng.random() < 0.3:
                 raws = [sorted(e) for e in raws]       # lets the batch be passed as frozensets (see batch_shape)
                 if not mal:
@@ -1682,12 +2172,12 @@ class Gen:
                 ns.append(rng.choice(ns) if ns and rng.random() < 0.5 else rng.randrange(self.n))
             return ["rmnodes", slot, ns, rng.randint(0, 1)]
         if r < 0.65:
-            return ["addnode", slot, rng.randrange(self.n), gen_md(rng)]
+            return ["addnode", slot, rng.randrange(self.n), gen_md(rng, True, True)]
         if r < 0.68:
             ns = [rng.randrange(self.n) for _ in range(rng.randint(0, 3))]
             mm = None
             if rng.random() < 0.5:
-                mm = [[x, gen_md(rng, False)] for x in sorted(set(ns))]
+                mm = [[x, gen_md(rng, False, True)] for x in sorted(set(ns))]
                 if mal and mm:
                     mm = mm[:-1]
             return ["addnodes", slot, ns, mm]
@@ -1698,10 +2188,10 @@ class Gen:
                 t = self.badtime()
             return ["setw", slot, e, t, w]
         if r < 0.77:
-            return ["setnmeta", slot, self.node(sp), gen_md(rng, False)]
+            return ["setnmeta", slot, self.node(sp), gen_md(rng, False, True)]
         if r < 0.80:
             e, t = self.present(sp)
-            return ["setemeta", slot, e, t, gen_md(rng, False)]
+            return ["setemeta", slot, e, t, gen_md(rng, False, True)]
         if r < 0.81:
             return ["sethmeta", slot, gen_md(rng, False)]
         if r < 0.83:
@@ -1720,16 +2210,33 @@ class Gen:
             k = sp.key(e, t)
             ks = list(sp.recs[k][1]) if k else []
             return ["delattre", slot, e, t, rng.choice(ks) if ks and not mal else rng.choice([0, 1])]
-        if r < 0.96:
+        if r < 0.955:
             return ["clear", slot]
-        return ["copy", slot, 1 - slot]
+        # one object out of another: copy() (half of the time), the other routes; mostly into the other slot (then both
+        # go on being used), sometimes in place (the derived object replaces its source as the subject of the history)
+        route = rng.choice(["copy"] * 5 + ["deepcopy", "pickle", "tables", "hgx", "json"])
+        if route == "json" and (sp.has_opaque() or OPQ in sp.hmeta):
+            route = "tables"      # the text format wants mappings
+        j = slot if rng.random() < 0.25 else 1 - slot
+        if j != slot:
+            self.pending = rng.sample(["attri", "attri", "attre", "attrn", "attrh"], rng.randint(1, 3))
+        return ["copy", slot, j] if route == "copy" else ["derive", slot, j, route]
 
 
 def make_labels(rng, n):
     """n node labels + one larger label (rank n) that is never inserted: the absent-node probes use it"""
-    kind = rng.choice(["int", "shift", "str", "big", "big", "huge", "float", "rstr", "rstr"])
+    kind = rng.choice(["int", "shift", "str", "big", "big", "huge", "float", "rstr", "rstr", "hcoll"])
     if kind == "int":
         return kind, list(range(n + 1))
+    if kind == "hcoll":       # DIFFERENT labels with EQUAL hashes: hash(-1) == hash(-2) == hash(-2**61) == -2,
+        #                       hash(0) == hash(2**61 - 1) == hash(2**62 - 2) == hash(-(2**61 - 1)) == 0, hash(1) == hash(2**61)
+        pool = [-2 ** 61, -(2 ** 61 - 1), -2, -1, 0, 1, 2 ** 61 - 1, 2 ** 61, 2 ** 62 - 2]
+        pick_ = set(rng.sample(pool, n + 1))
+        if not {-1, -2} <= pick_ and rng.random() < 0.8:
+            rest = [x for x in pick_ if x not in (-1, -2)]
+            rng.shuffle(rest)
+            pick_ = set(rest[:n - 1]) | {-1, -2}
+        return kind, sorted(pick_)
     if kind == "shift":
         base = rng.randint(5, 90)
         return kind, sorted(rng.sample(range(base, base + 3 * n), n + 1))
@@ -1832,6 +2339,23 @@ class Runner:
     def digest(self, slot, use_spec=True):
         return [self.ask(slot, q, use_spec) for q in digest_queries(self.n)]
 
+    def fview(self, h, P):
+        """every public getter of the object (None when it does not come back in time - reported)"""
+        try:
+            with time_limit(20):
+                return full_view(h, P, STATE["stats"])
+        except Timeout:
+            if not self.failed:
+                self.failed = True
+                self.ctx.violation(self.case(), "the public getters of the object did not return within 20 s")
+            return None
+        except Exception as e:     # a listing of a shape the probe table cannot read (only under a changed tree)
+            self.ctx.count("full_view_unreadable")
+            if not self.failed:
+                self.failed = True
+                self.ctx.violation(self.case(), "the listings of the object cannot be read (%s: %s)" % (type(e).__name__, str(e)[:100]))
+            return None
+
     def raw_digest(self, slot):
         return [self.impl.query(slot, q) for q in digest_queries(self.n)]
 
@@ -1865,10 +2389,15 @@ class Runner:
         """apply one op everywhere; returns the implementation's outcome"""
         name = op[0]
         self.ops.append(op)
-        if name in ("new", "ctor"):
+        if name in ("new", "ctor", "hoad"):
             slot = op[1]
             res, exc = self.impl.apply(op)
-            sp = Spec(bool(op[2]))
+            sp = Spec(bool(op[2]) if name != "hoad" else False)
+            if name == "hoad":
+                # an object that comes out of the library's own generator is the starting point of the history
+                links = hoad_links(op[2], op[3], op[4], op[5])
+                sp.apply(["addedges", slot, [list(e) for _, e in links], [t for t, _ in links], None, None])
+                self.ctx.count("hoad_records", len(sp.recs))
             if name == "ctor":
                 w, nmd, raws, ts, ws, mds, embed = op[2:9]
                 if len(op) > 9 and op[9] is not None:
@@ -1885,21 +2414,43 @@ class Runner:
                 self.model(ln, "ok")
             self.last[slot] = self.digest(slot)
             return res
-        if name == "copy":
+        if name in ("copy", "derive"):
+            # one object out of another: copy() and every other route the library offers.  The result must be what the
+            # route promises (spec + model digest, every query), the source must not notice, and - for the routes that
+            # keep the content - EVERY public getter of the class must answer on the result as on the source
             i, j = op[1], op[2]
-            self.ctx.count("op_copy")
+            route = op[3] if name == "derive" else "copy"
+            self.ctx.count("op_copy" if route == "copy" else "op_derive_" + route)
             before = self.raw_digest(i)
+            src = self.impl.slots[i]
+            P = view_probes(src, self.impl.lb(self.n), self.S)
+            fv0 = self.fview(src, P)
+            lines = derive_lines(op, route, self.specs[i], self.impl, src)
             res, exc = self.impl.apply(op)
-            self.specs[j] = self.specs[i].clone()
+            new_spec = self.specs[i].derived(route)
             if res != "ok":
                 self.failed = True
-                self.ctx.violation(self.case(), "copy() raised %s" % exc)
+                self.ctx.violation(self.case(), "%s raised %s" % (route_text(route), exc))
                 return res
-            self.model(op_lines(op)[0], "ok")
-            if self.raw_digest(i) != before:
+            for ln in lines:
+                self.model(ln, "ok")
+            if j != i and self.raw_digest(i) != before:
                 self.failed = True
-                self.ctx.violation(self.case(), "copy() changed the source object")
+                self.ctx.violation(self.case(), "%s changed the source object" % route_text(route))
+            self.specs[j] = new_spec
             self.last[j] = self.digest(j)
+            if fv0 is not None and route != "json" and not self.failed:
+                fv1 = self.fview(self.impl.slots[j], P)
+                d = None if fv1 is None else view_diff(fv0, fv1, is_inc_getter if route in TABLE_ROUTES else None)
+                if d is None and j != i and fv1 is not None and h32(op, len(self.ops)) % 3 == 0:
+                    fv2 = self.fview(src, P)
+                    d = None if fv2 is None else view_diff(fv0, fv2)
+                    if d is not None:
+                        d = (d[0] + " [asked on the SOURCE before and after]", d[1], d[2])
+                if d is not None:
+                    self.failed = True
+                    self.ctx.violation(self.case({"slot": j}), "%s: the getter call %s answers %s on the source and %s on the "
+                                       "derived object" % (route_text(route), d[0], str(d[1])[:300], str(d[2])[:300]))
             return res
         slot = op[1]
         sp = self.specs[slot]
@@ -1913,11 +2464,21 @@ class Runner:
         # containers the unchanged add_edges refuses (edge / time list not a `list`, unhashable hyperedges together with
         # weights): the call must be rejected as a whole; the model has no notion of container types and is not asked
         shape_rej = name == "addedges" and batch_rejects(batch_shape(self.impl.salt, op), op[2], op[4])
-        if shape_rej:
+        # an attribute-level edit of metadata that is not a mapping raises in the unchanged code (TypeError); the model's
+        # metadata are token lists, it would accept: the model is not asked about such a rejected call
+        if name in ("attrn", "delattrn"):
+            shape_rej = shape_rej or OPQ in sp.nodes.get(op[2], {})
+        elif name in ("attre", "delattre", "attri"):
+            k0 = sp.key(op[2], op[3])
+            tgt = (sp.recs[k0][1] if name != "attri" else sp.imd.get((k0, op[4]), {})) if k0 is not None else {}
+            shape_rej = shape_rej or OPQ in tgt
+        if shape_rej and name == "addedges":
             want = "rej"
             self.ctx.count("rejected_for_container_type")
         else:
             want = sp.apply(op)
+            if shape_rej:
+                self.ctx.count("rejected_edit_of_non_mapping_metadata")
         res, exc = self.impl.apply(op)
         self.ctx.count("op_" + name)
         self.ctx.count("accepted" if res == "ok" else "rejected")
@@ -1995,19 +2556,26 @@ def run_history(ctx, drv, rng, full=False, nops=None):
     n = rng.randint(3, 6)
     kind, lab = make_labels(rng, n)
     S = rng.choice(TSCALES)
+    hoad = rng.random() < 0.06
+    if hoad:                  # the history starts from an object made by the library's activity-driven generator
+        kind, lab, S = "hoad", list(range(n + 1)), 1
     R = Runner(ctx, drv, lab, kind, S)
     ctx.count("labels_" + kind)
     ctx.count("time_scale_%s" % (S if S < 10 ** 6 else "2^%d+" % (S.bit_length() - 1)))
-    weighted = rng.random() < 0.5
+    weighted = rng.random() < 0.5 and not hoad
     g = Gen(rng, n, weighted, S)
-    if rng.random() < 0.15:
+    if hoad:
+        acts = [[o, [rng.choice([0, 0.2, 0.5, 0.5, 1.0]) for _ in range(n)]]
+                for o in sorted(rng.sample(range(1, min(3, n) + 1), rng.randint(1, 2)))]
+        R.do(["hoad", 0, n, acts, rng.randint(1, 6), rng.randrange(10 ** 6)])
+    elif rng.random() < 0.15:
         k = rng.randint(1, 4)
         raws = [g.edge() for _ in range(k)]
         raws = [list(e) for e in {tuple(e): 1 for e in raws}]
         ts = [g.time() for _ in raws]
         ws = [rng.choice([4, 2, 6, 0]) for _ in raws] if (weighted or rng.random() < 0.2) and rng.random() < 0.7 else None
-        mds = [gen_md(rng, False) for _ in raws] if rng.random() < 0.5 else None
-        nmd = [[x, gen_md(rng, False)] for x in rng.sample(range(n), rng.randint(1, 2))] if rng.random() < 0.5 else None
+        mds = [gen_md(rng, False, True) for _ in raws] if rng.random() < 0.5 else None
+        nmd = [[x, gen_md(rng, False, True)] for x in rng.sample(range(n), rng.randint(1, 2))] if rng.random() < 0.5 else None
         hmd = None
         if rng.random() < 0.5:
             hmd = [[k, rng.randrange(len(VALPOOL))] for k in rng.sample([0, 1, 100], rng.randint(0, 2))]
@@ -2017,12 +2585,22 @@ def run_history(ctx, drv, rng, full=False, nops=None):
     nops = nops or rng.randint(6, 40)
     sweep_at = {rng.randrange(nops), nops - 1}
     probes = probe_queries(rng, n, g)
+    # now and then the object passes through a file / the serialisation helpers / pickle early on, so that most of the
+    # history runs on an object that a loader produced
+    reload_at = rng.randrange(min(nops, 6)) if rng.random() < 0.12 else -1
     for i in range(nops):
         if R.failed:
             break
         two = 1 in R.impl.slots
         slot = 1 if two and rng.random() < 0.35 else 0
         op = g.op(slot, R.specs[slot], two)
+        if i == reload_at:
+            route = rng.choice(["tables", "hgx", "json", "pickle"])
+            if route == "json" and (R.specs[slot].has_opaque() or OPQ in R.specs[slot].hmeta):
+                route = "hgx"
+            op = ["derive", slot, slot, route]
+        if op[0] == "derive" and op[3] == "json" and R.impl.used_np:
+            op[3] = "hgx"         # numpy scalars are not JSON serialisable (labels / weights read out of a passed array)
         R.do(op)
         if R.failed:
             break
